@@ -433,7 +433,7 @@ Definition MX_g := rm_node 1000 [Byte.x0a; Byte.x00; Byte.x00; Byte.x01] 6881 No
 Definition MX_q1 := rm_node 1001 [Byte.x0a; Byte.x00; Byte.x00; Byte.x02] 6881 None None false O.
 Definition MX_q2 := rm_node 1002 [Byte.x0a; Byte.x00; Byte.x00; Byte.x03] 6881 None (Some 0%Z) false O.
 Example C06_maint_nonvacuous :
-  let r := rm_pass MX_cfg MX_now [(1001, addr_key (n_addr MX_q1))] [] [MX_g; MX_q1; MX_q2] in
+  let r := rm_pass MX_cfg MX_now false [(1001, addr_key (n_addr MX_q1))] [] [MX_g; MX_q1; MX_q2] in
   map (fun p => fst (rm_phase_view p)) (fst r) = [0; 1; 2] /\
   (exists tg, nth_error (fst r) O = Some (PPing O tg) /\ tg = [MX_q1; MX_q2]) /\
   In MX_g (snd r) /\ map (rm_class MX_cfg MX_now) (snd r) = [0; 0; 2] /\
